@@ -23,7 +23,7 @@ import (
 func TestMain(m *testing.M) { ev.Main(m, "C03") }
 
 type Step struct {
-	Op   string `json:"op"`   // send | ack | early | near | late | end | pub2 | hold2 | rel2 | vanish
+	Op   string `json:"op"`   // send | ack | early | near | late | end | pub2 | hold2 | rel2 | vanish | crossack
 	S    int    `json:"s"`    // subscriber index (ack, end)
 	K    int    `json:"k"`    // ack, pub2: index into that subscriber's in-flight list (mod len); -1 = an identifier that is not in flight
 	Type string `json:"type"` // ack: puback pubrec pubrel pubcomp
@@ -165,6 +165,31 @@ func run(c Case) (f *failure, nontrivial bool) {
 			}
 			st.Op = "send"
 		}
+		crossed := -1
+		var crossedWas string
+		if st.Op == "crossack" {
+			// subscriber S's answer to the copy it holds crosses the retransmission on the wire: the
+			// broker processes the acknowledgement while the next copy is being written. The exchange
+			// was registered again before that write began, so the acknowledgement counts. Only when
+			// S has exactly one open exchange (the next write to it is that retransmission).
+			st.Op = "late"
+			if st.S < len(subs) && !ended[st.S] && !invalid(st.S) && len(inflight[st.S]) == 1 && len(heldIn[st.S]) == 0 {
+				k, fl := subs[st.S], inflight[st.S][0]
+				crossed, crossedWas = st.S, fl.phase
+				typ := ackTypes[fl.phase]
+				id := fl.id
+				k.Conn.OnNextWrite(func() {
+					k.Send(sim.EncAck(typ, id))
+					for until := time.Now().Add(2 * time.Second); time.Now().Before(until); {
+						if cs := k.Conn.State(); cs.Pending == 0 && cs.Parked {
+							break
+						}
+						time.Sleep(50 * time.Microsecond)
+					}
+				})
+				sawWrong = true
+			}
+		}
 		switch st.Op {
 		case "send":
 			sends++
@@ -298,6 +323,17 @@ func run(c Case) (f *failure, nontrivial bool) {
 					} else {
 						want[fmt.Sprintf("PUBLISH id%d q%d t/x=%s", fl.id, fl.qos, short(fl.payload))]++
 					}
+					if i == crossed && crossedWas == "pubrec" {
+						want[fmt.Sprintf("PUBREL id%d", fl.id)]++ // the answer to the PUBREC that crossed
+					}
+				}
+				if i == crossed {
+					// the acknowledgement was processed while the copy was on its way: it counts
+					if crossedWas == "pubrec" {
+						inflight[i][0].phase = "pubcomp"
+					} else {
+						inflight[i] = nil
+					}
 				}
 				have := map[string]int{}
 				for _, p := range got {
@@ -308,7 +344,11 @@ func run(c Case) (f *failure, nontrivial bool) {
 					}
 				}
 				if fmt.Sprint(want) != fmt.Sprint(have) {
-					return &failure{fmt.Sprintf("step %d (sweep after the deadlines): sub%d was re-sent %v, want %v (one copy of every exchange still open)", si, i, have, want), false}, nontrivial
+					cross := ""
+					if i == crossed {
+						cross = fmt.Sprintf("; its %s crossed the retransmission and was processed while the copy was being written", crossedWas)
+					}
+					return &failure{fmt.Sprintf("step %d (sweep after the deadlines): sub%d was re-sent %v, want %v (one copy of every exchange still open%s)", si, i, have, want, cross), false}, nontrivial
 				}
 				retransmissions += len(got)
 			}
@@ -581,7 +621,7 @@ func TestRandom(t *testing.T) {
 				if rapid.IntRange(0, 3).Draw(t, "unusedId") == 0 {
 					k = -1
 				}
-				op := rapid.SampledFrom([]string{"pub2", "hold2", "hold2", "rel2", "vanish"}).Draw(t, "inbound")
+				op := rapid.SampledFrom([]string{"pub2", "hold2", "hold2", "rel2", "vanish", "crossack", "crossack"}).Draw(t, "inbound")
 				if op != "pub2" && k < 0 {
 					k = 0
 				}
